@@ -78,7 +78,8 @@ def strategy(tier):
     gate = st.fixed_dictionaries({
         'part': st.just('gate'), 'aio': st.booleans(),
         'auth': st.sampled_from(['dict', 'list', 'pred', 'apred', 'false',
-                                 'tpred', 'tapred', 'rpred', 'rapred']),
+                                 'tpred', 'tapred', 'rpred', 'rapred',
+                                 'opred', 'wpred']),
         'mode': st.sampled_from(['development', 'production']),
         'read_only': st.booleans(),
         'payloads': st.lists(payload_variants(), min_size=1, max_size=4)})
@@ -184,6 +185,18 @@ def _rpred_oracle(p):
 
 
 def _mk_auth(kind, aio):
+    if kind == 'opred' and aio:
+        # an asynchronous predicate that is not a plain coroutine function:
+        # an object with an async __call__
+        class Checker:
+            async def __call__(self, p):
+                return _pred(p)
+        return Checker(), _pred
+    if kind == 'wpred' and aio:
+        # ... an async function behind an ordinary wrapper
+        async def inner(p):
+            return _pred(p)
+        return (lambda p: inner(p)), _pred
     if kind in ('rpred', 'rapred'):
         if kind == 'rapred' and aio:
             async def arp(p):
